@@ -90,9 +90,21 @@ class Library:
                 and a block with new_block.key (other than old_block) already exists."""
         try:
             index = self._blocks.index(old_block)
-            self.remove(old_block)
         except ValueError:
             raise ValueError("Block to replace is not in library.")
+
+        if fail_on_duplicate_key:
+            # Check before touching anything, such that a failing call leaves the library as it was
+            if isinstance(new_block, Entry):
+                same_key_block = self._entries_by_key.get(new_block.key)
+            elif isinstance(new_block, String):
+                same_key_block = self._strings_by_key.get(new_block.key)
+            else:
+                same_key_block = None
+            if same_key_block is not None and same_key_block is not self._blocks[index]:
+                raise ValueError("Duplicate key found.")
+
+        self.remove(old_block)
 
         block_after_add = self._add_to_dicts(new_block)
         self._blocks.insert(index, block_after_add)
